@@ -44,6 +44,7 @@ class Controller:
     self.baton = None                  # tid allowed to run
     self.deadlock = False
     self.events = []                   # executed events (tid, event)
+    self.current_method = {}           # tid -> datastore method being executed
 
   # ---- called from managed threads
   def tid(self):
@@ -108,16 +109,21 @@ class Controller:
 
 
 class SchedLock:
-  def __init__(self, ctl, lock_id):
+  def __init__(self, ctl, lock_id, yield_on_acquire=True, yield_on_release=False):
     self.ctl, self.lock_id = ctl, lock_id
     self._real = threading.Lock()
+    self.yield_on_acquire, self.yield_on_release = yield_on_acquire, yield_on_release
 
   def __enter__(self):
     t = self.ctl.tid()
     if t is None:
       self._real.acquire()
       return self
-    self.ctl.yield_point(('acq', self.lock_id))
+    if self.yield_on_acquire:
+      self.ctl.yield_point(('acq', self.lock_id))
+    elif self.ctl.holder.get(self.lock_id) not in (None, t):
+      # a lock that is never held across a yield point: always free here
+      raise AssertionError('scheduler: %s held by another thread at a non-yielding acquire' % (self.lock_id,))
     self.ctl.holder[self.lock_id] = t
     return self
 
@@ -127,6 +133,11 @@ class SchedLock:
       self._real.release()
       return False
     self.ctl.holder.pop(self.lock_id, None)
+    if self.yield_on_release and self.ctl.current_method.get(t) not in READS:
+      # (only inside WRITE methods: what a read does after releasing the lock cannot change the store)
+      # the instant after the lock is released (what follows in the same method, e.g. a late commit,
+      # runs unprotected)
+      self.ctl.yield_point(('rel', self.lock_id))
     return False
 
   def acquire(self, *a, **k):
@@ -144,7 +155,7 @@ DS_METHODS = ['create_study', 'load_study', 'update_study', 'delete_study', 'lis
               'update_early_stopping_operation', 'update_metadata']
 
 
-def instrument(sv, ctl):
+def instrument(sv, ctl, fine=False):
   for table in ('_owner_name_to_lock', '_study_name_to_lock', '_operation_lock'):
     d = collections.defaultdict()
     name = table
@@ -158,18 +169,28 @@ def instrument(sv, ctl):
       return _D()
     setattr(sv, table, factory_for(name, d))
   ds = sv.datastore
+  if fine and hasattr(ds, '_lock'):
+    # FINE mode: the datastore's own lock becomes visible - a thread may be preempted right after it
+    # releases that lock, i.e. INSIDE a datastore method (between the protected part and whatever the
+    # method still does afterwards)
+    ds._lock = SchedLock(ctl, ('dslock',), yield_on_acquire=False, yield_on_release=True)  # pylint: disable=protected-access
   for m in DS_METHODS:
     fn = getattr(ds, m)
 
     def make(fn, m):
       def wrapped(*a, **k):
         ctl.yield_point(('ds', m))
-        return fn(*a, **k)
+        t = ctl.tid()
+        ctl.current_method[t] = m
+        try:
+          return fn(*a, **k)
+        finally:
+          ctl.current_method.pop(t, None)
       return wrapped
     setattr(ds, m, make(fn, m))
 
 
-def run_schedule(backend, prefix, reqs, choices, sleep=None):
+def run_schedule(backend, prefix, reqs, choices, sleep=None, fine=False):
   """Runs `reqs` (one per thread) concurrently under the forced `choices`. Returns
   (responses, final snapshot, trace, events, deadlock)."""
   rr = svcreal.RealRunner(backend)
@@ -177,7 +198,7 @@ def run_schedule(backend, prefix, reqs, choices, sleep=None):
     rr.step(r)
   before = rr.snapshot()
   ctl = Controller(choices, sleep)
-  instrument(rr.sv, ctl)
+  instrument(rr.sv, ctl, fine)
   resps = [None] * len(reqs)
 
   def worker(i):
@@ -224,14 +245,14 @@ def run_schedule(backend, prefix, reqs, choices, sleep=None):
   return {'resps': resps, 'final': final, 'before': before, 'trace': ctl.trace, 'events': ctl.events, 'deadlock': deadlock, 'blocked': ctl.blocked}
 
 
-def explore(backend, prefix, reqs, limit=20000, use_sleep=True):
+def explore(backend, prefix, reqs, limit=20000, use_sleep=True, fine=False):
   """All schedules up to commutation of independent events (stateless DFS with sleep sets).
   Yields run results; `blocked` runs (redundant) are yielded too, flagged."""
   stack = [([], {})]
   seen = 0
   while stack and seen < limit:
     choices, sleep0 = stack.pop()
-    res = run_schedule(backend, prefix, reqs, choices, sleep0 if use_sleep else None)
+    res = run_schedule(backend, prefix, reqs, choices, sleep0 if use_sleep else None, fine)
     seen += 1
     trace = res['trace']
     if not res.get('blocked'):
